@@ -486,10 +486,96 @@ def run_user_layouts(res):
     sample(res, {"user_layout_reads": n})
 
 
+def run_user_rules(res):
+    """User-declared values with RULES of their own ("interpreted by that value's rules"): limits that are exactly 0 (a reserved
+    'shall be 0' byte; a signed number that must not be negative), signed scaled numbers, signed MASK / TMASK patterns - read
+    alone and through read_all from a gear and a device, for every byte pattern that sits on or next to a boundary."""
+    import decimal
+    from dali.memory.location import MemoryBank, MemoryLocation, MemoryType, NumericValue, FixedScaleNumericValue, FlagValue
+    n = 0
+    decls = {
+        "ReservedZero": (NumericValue, 1, dict(max_value=0)),
+        "NonNegative": (NumericValue, 2, dict(signed=True, min_value=0, max_value=0x7FFD)),
+        "AtMostZero": (NumericValue, 1, dict(signed=True, max_value=0)),
+        "SignedMasked": (NumericValue, 2, dict(signed=True, mask_supported=True, tmask_supported=True)),
+        "SignedTenths": (FixedScaleNumericValue, 2, dict(signed=True, scaling_factor=decimal.Decimal("0.1"), min_value=-400, max_value=1250,
+                                                        mask_supported=True, tmask_supported=True)),
+        "Plain": (NumericValue, 1, dict(min_value=1, max_value=53)),
+    }
+    patterns = {1: [0x00, 0x01, 0x05, 0x35, 0x36, 0x7F, 0x80, 0xFE, 0xFF],
+                2: [0x0000, 0x0001, 0x04E2, 0x04E3, 0x7FFD, 0x7FFE, 0x7FFF, 0x8000, 0xFE6F, 0xFE70, 0xFE71, 0xFFFE, 0xFFFF]}
+
+    def reference(nm, rv):
+        base, width, opt = decls[nm]
+        signed = opt.get("signed", False)
+        num = int.from_bytes(rv.to_bytes(width, "big"), "big", signed=signed)
+        top = (1 << (8 * width - (1 if signed else 0))) - 1
+        if opt.get("mask_supported") and rv == top:
+            return "MASK"
+        if opt.get("tmask_supported") and rv == top - 1:
+            return "TMASK"
+        lo, hi = opt.get("min_value"), opt.get("max_value")
+        if (lo is not None and num < lo) or (hi is not None and num > hi):
+            return "Invalid"
+        return opt.get("scaling_factor", 1) * num
+
+    for fam in ("gear", "device"):
+        bank = MemoryBank(13, 0x40)
+        classes, where, a = {}, {}, 0x10
+        for nm, (base, width, opt) in decls.items():
+            where[nm] = tuple(range(a, a + width))
+            classes[nm] = type(nm, (base,), dict(opt, bank=bank, locations=tuple(MemoryLocation(x, type_=MemoryType.ROM) for x in where[nm])))
+            a += width + 1
+        rounds = max(len(p) for p in patterns.values())
+        for rnd in range(rounds):
+            stored = {nm: patterns[decls[nm][1]][rnd % len(patterns[decls[nm][1]])] for nm in decls}
+
+            def mkharness():
+                h = MemHarness(fam, "BANK_0", "rnd1", None, [], None, ticks=False, faults=False, sa=9)
+                cells = [0x40, 0x00] + [(13 * i + 7) & 0xFF for i in range(2, 256)]
+                for nm, rv in stored.items():
+                    for x, b in zip(where[nm], rv.to_bytes(decls[nm][1], "big")):
+                        cells[x] = b
+                ub = G.MemBank(13, cells, writable=set(), lockable=set(), has_lock=False)
+                h.unit.banks = {13: ub}
+                h.bank = ub
+                return h
+            want = {nm: reference(nm, rv) for nm, rv in stored.items()}
+            case = {"t": "user-rules", "fam": fam, "round": rnd}
+
+            def norm(v):
+                return v.name if isinstance(v, FlagValue) else v
+            for nm, cls in classes.items():
+                h = mkharness()
+                before = list(h.bank.cells)
+                kind, val, _ = G.run_sequence(cls.read(h.addr()), h, 200)
+                n += 1
+                if kind != "return" or norm(val) != want[nm]:
+                    add_violation(res, f"C09:user-rules:read:{nm}", f"{case}: user value {nm} {decls[nm][2]} holding {stored[nm]:#x}: read -> {kind} {val!r}, "
+                                  f"its rules say {want[nm]!r}", case)
+                if list(h.bank.cells) != before:
+                    add_violation(res, f"C09:user-rules:memory-changed:{nm}", f"{case}: reading {nm} changed the unit's memory", case)
+            h = mkharness()
+            kind, val, _ = G.run_sequence(bank.read_all(h.addr()), h, 900)
+            n += 1
+            if kind != "return":
+                add_violation(res, "C09:user-rules:read_all-raised", f"{case}: read_all {kind} {val!r}", case)
+            else:
+                got = {c.__name__: norm(v) for c, v in val.items() if c.__name__ in decls}
+                if got != want:
+                    bad = {k_: (got.get(k_), want[k_]) for k_ in want if got.get(k_) != want[k_]}
+                    add_violation(res, "C09:user-rules:read_all", f"{case}: read_all (value: got, expected by its rules) {bad}; stored "
+                                  f"{ {k_: hex(stored[k_]) for k_ in bad} }", case)
+            res["distinct"].add(("user-rules", fam, tuple(sorted((k_, str(v)) for k_, v in want.items()))))
+    res["evaluations"] += n
+    sample(res, {"user_rule_reads": n})
+
+
 def run_shard(shard):
     if shard[0] == "user-layouts":
         res = new_result()
         run_user_layouts(res)
+        run_user_rules(res)
         return res
     if shard[0] == "declare-between-reads":
         res = new_result()
